@@ -32,6 +32,32 @@ AIMS = {
         "two elements that are equal; or on a value sitting exactly on a boundary the code compares "
         "against (0, 1, a tolerance, an epsilon, i32/u32/u64 limits, infinity)."
     ),
+    "6": (
+        "This round, aim for a change in the LESS COMMON ENTRY POINT or VARIANT of an operation the "
+        "property covers. An operation usually has several implementations that must agree: by-value vs "
+        "by-reference operator impls, `op` vs `op_assign`, the impl on the concrete type (Linear, "
+        "Quadratic, Polynomial) vs on the wrapping `Function`, single-state `evaluate` vs "
+        "`evaluate_samples`, `load_file` vs `load_raw_reader` / the zipped reader, a `*_id` getter vs the "
+        "getter returning the object, active vs removed constraints, Minimize vs Maximize, integer vs "
+        "binary vs continuous kind, the linear part inside a Quadratic vs a stand-alone Linear, a typed "
+        "struct vs the raw message. Change only ONE of them so that the variants disagree; or make a "
+        "change that is only visible for the second and later elements of a list, on the second call, "
+        "or for a non-first oneof arm / enum value."
+    ),
+    "7": (
+        "This round, aim for PERFORMANCE-MOTIVATED or IDIOM-MOTIVATED rewrites that are almost but not "
+        "quite equivalent: memoisation / caching across calls or across loop iterations; early exits "
+        "and short-circuit evaluation; pre-sizing and reuse of buffers; replacing a BTreeMap by a "
+        "HashMap or a Vec (or vice versa) where an ordering or uniqueness assumption hides; replacing "
+        "a linear scan by an index or by sort + dedup; merging two passes into one or hoisting a "
+        "computation out of a loop although it is not invariant; `retain` / `drain` / `swap_remove` / "
+        "`split_off` instead of rebuilding (index shifting, order changes); iterator adaptor swaps "
+        "(`zip` truncation, `take_while` vs `filter`, `find` vs `rfind`, `min_by` vs `max_by` on ties, "
+        "`any` vs `all` on empty input, `chunks` remainders, `windows` on short input, `fold` seeds); "
+        "numeric casts and arithmetic (`as i64` / `as u32` / `as usize` truncation or saturation, "
+        "`floor` vs `round` vs `trunc` for negatives, `abs_diff`, integer division, `powi` vs repeated "
+        "multiplication, `<=` vs `<` at a tolerance, f64 `max` / `min` with NaN or signed zero)."
+    ),
 }
 
 
